@@ -210,6 +210,28 @@ def translate(repo):
     if len(neg_tests) not in (0, 2):
         raise Untranslatable("add evaluator: unexpected sign tests")
     txt += f"Definition add_rejects_negative_constant : bool := {'true' if neg_tests else 'false'}.\n"
+    # concat: is a zero-length operand dropped only when its other dims are known to match a kept reference operand?
+    ccf = next((n for n in tree.body if isinstance(n, ast.FunctionDef) and n.name == "concat"), None)
+    if ccf is None:
+        raise Untranslatable("concat evaluator not found")
+    inner = {n.name for n in ast.walk(ccf) if isinstance(n, ast.FunctionDef)} - {"concat"}
+    csrc = ast.unparse(ccf)
+    if inner == {"has_zero_size"}:
+        concat_fixed = False
+        if "new_inputs = [x for x in inputs if not has_zero_size(x)]" not in csrc:
+            raise Untranslatable("concat evaluator: the as-read form drops operands in a way the model does not know")
+    elif inner == {"has_zero_size", "same_except_axis"}:
+        concat_fixed = True
+        needed = ["ref_index = zero_size.index(False) if False in zero_size else 0", "reference = inputs[ref_index]",
+                  "if not zero_size[i] or i == ref_index or (not same_except_axis(x, reference))",
+                  "if len(new_inputs) == 1:", "dim.value is None or dim.value != ref_dim.value", "if not -rank <= axis < rank:",
+                  "if i == axis % rank:", "len(shape) != len(ref_shape)"]
+        missing = [t for t in needed if t not in csrc]
+        if missing:
+            raise Untranslatable(f"concat evaluator: the repaired form differs from what the model knows: {missing[:2]}")
+    else:
+        raise Untranslatable(f"concat evaluator: unknown helper functions {sorted(inner)}")
+    txt += f"Definition concat_drop_checks_other_dims : bool := {'true' if concat_fixed else 'false'}.\n"
     # identity: are type and shape also propagated forward (input -> output)?
     idf = next((n for n in tree.body if isinstance(n, ast.FunctionDef) and n.name == "identity"), None)
     if idf is None:
@@ -223,7 +245,7 @@ def translate(repo):
         raise Untranslatable("identity evaluator: unexpected form of the forward propagation")
     txt += f"Definition identity_forwards_type : bool := {'true' if fwd_type else 'false'}.\n"
     return txt, {"registry": [(d, o, lo, hi) for d, o, lo, hi, _ in registry], "order": order, "returns": n_ret,
-                 "guard": guard, "clear_keeps": keep}
+                 "guard": guard, "clear_keeps": keep, "concat_fixed": concat_fixed}
 
 
 def regenerate(ctx):
